@@ -6,6 +6,16 @@ Raw == ndJsonDeserialize(IOEnv.MODELS)
 MCModels == LET R == Raw IN [i \in DOMAIN R |-> R[i].spec]
 MCInputSets == LET R == Raw IN [i \in DOMAIN R |-> { R[i].inputs[j] : j \in DOMAIN R[i].inputs }]
 
-(* observation variables are not part of the explored state *)
-View == <<procs, queue, spawn, budget>>
+(* Observation variables are not part of the explored state, and creation     *)
+(* stamps matter only as the order among the tasks that hang off one          *)
+(* predecessor (Process::children sorts by them): states that differ in the   *)
+(* absolute stamps only are the same state.                                   *)
+CanonProc(p) ==
+  IF p.st = "absent" THEN p
+  ELSE [p EXCEPT !.nseq = 0,
+                 !.ts = [t \in DOMAIN p.ts |->
+                           [p.ts[t] EXCEPT !.seq =
+                              Cardinality({ u \in DOMAIN p.ts : p.ts[u].prev = p.ts[t].prev
+                                                               /\ p.ts[u].seq < p.ts[t].seq })]]]
+View == <<[pid \in Pids |-> CanonProc(procs[pid])], queue, spawn, budget>>
 =============================================================================
